@@ -102,7 +102,6 @@ fn main() {
                 },
                 "isready" => print!("readyok\n"),
                 "go" => {
-                    if split.peek().is_none() { continue; }
                     parse_go(input.split_at(2).1.to_string(), &mut game, &io_receiver, &mut tt, &mut repetition_table)
                 },
                 "eval" => {
